@@ -74,6 +74,10 @@ T = [
     ("flag-after-flag", 1, 12, 3, 1, [IN("\U0001F1E9\U0001F1EA"), IN("\U0001F1EB\U0001F1F7"), IN("\U0001F1E9"), IN("\U0001F1EA!")], False),
     ("indicator-control-indicator", 1, 12, 4, 0, [IN("\U0001F1E9\r\n\U0001F1EA" + "a" + "‍" + E + "[1C" + "b")], False),
     ("stale-uniseg-state", 1, 12, 3, 1, [IN("\U0001F468‍"), IN(E + "[1;1H"), IN("ab")], False),
+    ("alt-mark-overwrite", 0, 10, 2, 0, [IN(E + "[?1049h" + "e\u0301x" + E + "[2G" + "Y" + E + "[6n" + E + "[1;1H" + "\u2764\ufe0fab" + E + "[3G" + E + "[X")], True),
+    ("del-between-indicators", 1, 10, 3, 0, [IN("xy\U0001F1FA\x7f\x7f\U0001F1F8" + "a\u200d\x7f" + "b")], False),
+    ("mode-combos", 0, 6, 3, 0, [IN(E + "[3;3H" + E + "[?1049;7h" + "abcdefgh" + E + "[6n" + E + "[?1049;1049l" + E + "[6n" + E + "[?25;1049;1049h" + "x" + E + "[?7;1049l" + "ijklmnop")], True),
+    ("osc-4096", 0, 10, 3, 0, [IN("a" + E + "]0;" + "t" * 4096 + E + "\\" + "b" + E + "]2;" + "u" * 4097 + "\x07" + "c" + E + "P" + "q" * 4095 + E + "\\" + "d")], False),
     ("kf-merge-changes-width", 1, 12, 3, 1, [IN("❤"), IN("️"), IN("x")], False),
     ("kf-merge-narrows", 1, 12, 3, 1, [IN("\U0001F600"), IN("︎"), IN("x")], False),
     ("kf-zwj-force-merge", 1, 12, 3, 1, [IN("a"), IN("‍"), IN("bc")], False),
